@@ -805,12 +805,33 @@ pub fn run_c17(a: &Args) {
             }
             let mut rng = Rng::new(mix(a.seed ^ 0x5717, idx));
             let fam: &'static str = *rng.pick(&["gnp_mid", "gnp_dense", "complete", "gnp_sparse", "cycle"]);
-            let case = gen_case(*rng.pick(&kinds), fam, rng.range(3, 7), WClass::Generic, &GenOpts { self_loops: rng.chance(1, 4), parallel: rng.chance(1, 4), shuffle_edges: true }, &mut rng);
+            let mut case = gen_case(*rng.pick(&kinds), fam, rng.range(3, 7), WClass::Generic, &GenOpts { self_loops: rng.chance(1, 4), parallel: rng.chance(1, 4), shuffle_edges: true }, &mut rng);
+            let zero_gain_shape = r % 4 == 3;
+            if zero_gain_shape {
+                // a directed core (a weighted cycle) that every edge of the graph ends in, plus
+                // one to three source-only nodes: merging a source into the core changes the
+                // modularity by w/m - w*m/m^2, i.e. by exactly zero in real arithmetic, so the
+                // decision to compute one more level rests on rounding alone
+                let core = rng.range(2, 3);
+                let sources = rng.range(1, 3);
+                let n = core + sources + rng.below(2);
+                let names: Vec<String> = scrambled_names(n, &mut rng);
+                let mut edges = vec![];
+                for i in 0..core {
+                    edges.push((i, (i + 1) % core, WClass::Generic.draw(&mut rng)));
+                }
+                for s in 0..sources {
+                    edges.push((core + s, rng.below(core), WClass::Generic.draw(&mut rng)));
+                }
+                rng.shuffle(&mut edges);
+                case = GCase { specs: Specs::kind(true, rng.chance(1, 3), false), names, edges, family: "directed-core-with-source-only-nodes", wclass: WClass::Generic };
+                ctx::count("reach:merge-with-exactly-zero-gain");
+            }
             if case.edges.is_empty() {
                 continue;
             }
-            let gamma = *rng.pick(&[1.0, 1.0, 0.5, 1.5]);
-            let threshold = *rng.pick(&[None, Some(0.0), Some(0.01)]);
+            let gamma = if zero_gain_shape { 1.0 } else { *rng.pick(&[1.0, 1.0, 0.5, 1.5]) };
+            let threshold = if zero_gain_shape { Some(0.0) } else { *rng.pick(&[None, Some(0.0), Some(0.01)]) };
             let seed = rng.next_u64() % 1000;
             let mut first: Option<String> = None;
             for rep in 0..4 {
